@@ -304,6 +304,39 @@ theorem lt_renderings_differ (cfg : CmpCfg) (h : cfg.WF) (a b ba bb : Int) (ta t
   rw [hlt] at this
   exact absurd this (by simp)
 
+/-- **The text order of two UTC renderings is the order of the rendered instants** (years
+1000..9999, where `%Y` has four digits; `<` on `List Char` is the lexicographic code-point order
+that Python uses for `str`). -/
+theorem render_order (p : Nat) (hp1 : 1 ≤ p) (hp : p ≤ 6) (a b ba bb : Int) (ta tb : List Char)
+    (ha : render p a ba none .dflt = some ta) (hb : render p b bb none .dflt = some tb)
+    (hya : 1000 ≤ (civilOfSecs (roundTo p a ba / 1000000)).y)
+    (hyb : 1000 ≤ (civilOfSecs (roundTo p b bb / 1000000)).y)
+    (hlt : roundTo p a ba < roundTo p b bb) : ta < tb := by
+  obtain ⟨_, hva, _, hta⟩ := render_eq p hp a ba none .dflt ta ha
+  obtain ⟨_, hvb, hfb, htb⟩ := render_eq p hp b bb none .dflt tb hb
+  have hper : ∀ u, periodAt utcZone u = utcPeriod := fun _ => rfl
+  have hri : ∀ x bx, renderInstant p x bx = roundTo p x bx := by
+    intro x bx; unfold renderInstant; rw [if_neg (by omega)]
+  simp only [Option.getD_none, hper, suffixOf, List.append_nil, utcPeriod, Int.add_zero, hri] at hva hta hvb hfb htb
+  rw [hta, htb]
+  apply formatCivil_lt _ _ p _ _ hp1 hva hvb hya hyb hfb
+  apply civilOfSecs_key
+  by_cases hs : roundTo p a ba / 1000000 = roundTo p b bb / 1000000
+  · right; exact ⟨hs, frac_lt_of p hp1 hp a b ba bb hlt hs⟩
+  · left; omega
+
+/-- **`<` on timestamps implies `<` on their default renderings as strings** (and `>` implies
+`>`), for instants rendered with four-digit years: comparison never contradicts the order of the
+millisecond UTC renderings. -/
+theorem lt_string_order (cfg : CmpCfg) (h : cfg.WF) (a b ba bb : Int) (ta tb : List Char)
+    (ha : render cfg.prec a ba none .dflt = some ta) (hb : render cfg.prec b bb none .dflt = some tb)
+    (hya : 1000 ≤ (civilOfSecs (roundTo cfg.prec a ba / 1000000)).y)
+    (hyb : 1000 ≤ (civilOfSecs (roundTo cfg.prec b bb / 1000000)).y) :
+    (tsLt cfg a b = true → ta < tb) ∧ (tsGt cfg a b = true → tb < ta) := by
+  have hc := cmp_consistent cfg h a b ba bb
+  exact ⟨fun hlt => render_order cfg.prec h.1 h.2.1 a b ba bb ta tb ha hb hya hyb (hc.1 hlt),
+    fun hgt => render_order cfg.prec h.1 h.2.1 b a bb ba tb ta hb ha hyb hya (hc.2 hgt)⟩
+
 /-! ### durations -/
 
 /-- **A duration formatted to text parses back to exactly the same duration**, for every
